@@ -356,7 +356,7 @@ def r06_4(cx):
         cx.report('R06.4', b, 'fill-order', ok, '%s are filled by iterating patterns.iter() (semantic order)' % what if ok else '%s are not filled from patterns.iter()' % what)
     t = cx.body(GEN + 'Teddy::<BUCKETS>::new')
     ln = [t.call_term(bi, tt) for bi, tt in t.calls(r'Pattern::low_nybbles$')]
-    ok = len(ln) == 1 and is_call(ln[0][2][1], r'Teddy::mask_len$')
+    ok = len(ln) == 1 and is_call(peel_all(expand_vars(t, ln[0][2][1])), r'Teddy::mask_len$')
     ml = cx.body(GEN + 'Teddy::<BUCKETS>::mask_len')
     mt = strip_convs(ml.local_term(0, expand=True))
     okm = is_call(mt, r'core::cmp::min$') and {tstr(x) for x in mt[2]} == {'4', 'packed::pattern::Patterns::minimum_len(self.patterns)'} or (is_call(mt, r'core::cmp::min$') and ('c', 4) in mt[2] and any('minimum_len' in tstr(x) for x in mt[2]))
